@@ -106,7 +106,8 @@ CLAIMED = {
              'that is not forwarded changes the normal form and is reported, as is a wrapper that raises where its '
              'twin evaluates.',
         note=STATIC_NOTE + 'pmutt.constants modelled as verified by C12; _force_pass_arguments by its documented '
-             'contract; numeric values and array T are not decided here.',
+             'contract; numeric values are not decided here; array T is decided for the empirical classes, the '
+             'reactions and StatMech (both forms must answer or refuse alike).',
         ref='DESIGN.md section 4 C04'),
     'C05': dict(
         technique='abstract interpretation of writer and reader over an abstract string domain (literal text + symbolic '
@@ -161,9 +162,14 @@ CLAIMED = {
              'once in order with name, composition and occupancy, phases list exactly their species and elements with '
              'converted site density/density, SurfaceReaction entries carry equation, id and A/b/Ea equal to the '
              'model\'s values in the requested units (adsorption, user Ea, computed Ea), interactions and BEPs carry '
-             'their members and converted parameters. It does NOT decide that the YAML loads or the CTI parses.',
-        note=STATIC_NOTE + 'yaml.dump and Cantera\'s CTI parser are outside the analysis; quote stripping by str.replace '
-             'and user/auto id collisions are not decided.',
+             'their members and converted parameters; (f) as necessary conditions of "the YAML loads / the CTI is a '
+             'valid sequence of directives": what is handed to the serialiser is plain Python data (no NumPy scalars or '
+             'arrays, no tuples), the quotes PyYAML puts around ambiguous scalars survive, and every CTI text, spelled '
+             'with sample values, parses as a sequence of calls of ctml_writer directives by their keywords with literal '
+             'arguments; (g) that the dictionaries of the caller are not written into and a second file does not repeat '
+             'the first.',
+        note=STATIC_NOTE + 'yaml.dump and Cantera\'s CTI processor themselves are outside the analysis (the number of '
+             'coefficients a thermo directive accepts is not checked); user/auto id collisions are not decided.',
         ref='DESIGN.md section 4 C07'),
     'C08': dict(
         technique='abstract interpretation of Reaction/ChemkinReaction/SurfaceReaction with uninterpreted species and '
@@ -288,8 +294,10 @@ CLAIMED = {
              'is unchanged, and a second encode/decode cycle reproduces the same dictionary. Each difference is reported '
              'on the innermost class and attribute.',
         note=STATIC_NOTE + 'json.dumps/loads modelled structurally (objects through pmuttEncoder.default -> to_dict, '
-             'tuples become lists, ndarrays not encodable); list versus ndarray values are not distinguished when '
-             'comparing; NumPy scalar types and float formatting are not decided.',
+             'tuples become lists; NumPy integers, iterators, sets and foreign objects are handed to the interpreted '
+             'pmuttEncoder.default as json does); list versus ndarray values are not distinguished when comparing; a '
+             'number that went through text is the same number only for conversions that lose nothing (str/repr, >= 17 '
+             'significant digits).',
         ref='DESIGN.md section 4 C11'),
     'C12': dict(
         technique='table analysis: constant folding of literal tables + abstract interpretation of the '
